@@ -77,6 +77,11 @@ Example C17_nv :
   sval_text (SDec (mkdec (-123456789012345678901234567890) (-40))) = str_bytes "-0.000000000012345678901234567890123456789" /\
   typed_parse 3 2 (sval_text v) = Some (Ok (STsv 18446744073709551615 (STsv 0 (SQuote (mkdec (-15) (-1)) (mkdec 123 (-2)) (mkdec (5 * 10 ^ 40) 0))))).
 Proof. cbv zeta. repeat split; vm_compute; reflexivity. Qed.
+(* UnpackDecode (exercised on the real bytes as well): the tuple comes back with the report decoded *)
+Theorem C17_unpack_decode_bytes : forall t j sn fr, JsonPackProofs.ptuple_ok t j -> json_decode j = Some (Ok fr) ->
+  JsonPackBytes.json_unpack_decode_bytes (JsonPackBytes.json_pack_bytes t sn) = Some (Ok (pt_digest t, pt_seq t, fr, pt_sigs t)).
+Proof. exact JsonPackProofs.json_unpack_decode_pack. Qed.
+Print Assumptions C17_unpack_decode_bytes.
 Definition C17_nv_j : jreport :=
   {| j_digest := hex_encode (repeat 7 32); j_seq := 3; j_chan := 9; j_va := 1000; j_ts := 2000;
      j_values := [(0, str_bytes "1.5"); (1, str_bytes "Q{Bid: 1, Benchmark: 2, Ask: 3}")]; j_specimen := false |}.
